@@ -318,6 +318,48 @@ func (s *Sim) snapshotOpts(rs *rpcState, ev *Event) {
 	}
 }
 
+// optionAliasProbe: the caller edits, in place, the metadata one of its
+// grpc.Header / grpc.Trailer targets was filled with (an interceptor deleting
+// a key it has consumed, say). No other target, and nothing the stream hands
+// out, may change with it: each is the caller's own copy of what the server sent.
+func (s *Sim) optionAliasProbe(rs *rpcState, st grpc.ClientStream) {
+	if len(rs.r.Client2) > 0 {
+		return // the other goroutine may still be using them
+	}
+	const mark = "scribbled-by-the-caller-afterwards"
+	probe := func(kind string, hs []*mdHolder, other func() metadata.MD) {
+		if len(hs) == 0 || hs[0].md == nil {
+			return
+		}
+		hs[0].md[mark] = []string{"x"}
+		s.probe("option-target-scribbled")
+		shared := ""
+		for i := 1; i < len(hs); i++ {
+			if _, bad := hs[i].md[mark]; bad {
+				shared = fmt.Sprintf("grpc.%s target #%d", kind, i)
+			}
+		}
+		if other != nil {
+			if md := other(); md != nil {
+				if _, bad := md[mark]; bad {
+					shared = "what the stream's " + kind + "() returns"
+				}
+			}
+		}
+		delete(hs[0].md, mark)
+		if shared != "" {
+			s.violate("C03", fmt.Sprintf("C03|%s|%s|option-targets-share-one-map|%s", rs.r.Transport, kindNames[rs.r.Kind], kind), rs.r.ID,
+				"rpc%d %s %s: after the call the caller added a key to the metadata in its first grpc.%s target; the key shows up in %s as well: the targets are not copies of what the server sent but one shared map", rs.r.ID, rs.r.Transport, kindNames[rs.r.Kind], kind, shared)
+		}
+	}
+	var tlr func() metadata.MD
+	if st != nil {
+		tlr = func() metadata.MD { return safeTrailer(st) }
+	}
+	probe("Header", rs.hdrOpts, nil)
+	probe("Trailer", rs.tlrOpts, tlr)
+}
+
 func junkMessage() *grpchantesting.Message {
 	return &grpchantesting.Message{
 		Payload:  []byte("JUNKJUNK"),
@@ -405,6 +447,29 @@ func (s *Sim) clientMain(rs *rpcState, g int, ops []Op) {
 				st, e = conn.NewStream(rs.ctx, desc, r.Call, opts...)
 				return e
 			})
+			if err == nil && st != nil && r.Creds != nil {
+				// anything in the stream's context that only the credentials supplied?
+				if md, ok := metadata.FromOutgoingContext(st.Context()); ok {
+					own := kvToMD(r.OutMD)
+					for _, kv := range r.Creds.MD {
+						vals := md.Get(kv.K)
+						for _, x := range vals {
+							isOwn := false
+							for _, o := range own.Get(kv.K) {
+								if o == x {
+									isOwn = true
+								}
+							}
+							if x == string(kv.V) && !isOwn {
+								if ev.Flags == nil {
+									ev.Flags = map[string]string{}
+								}
+								ev.Flags["ctx-md-has-creds"] = fmt.Sprintf("%s=%q", kv.K, x)
+							}
+						}
+					}
+				}
+			}
 			s.end(ev, err)
 			if err != nil || st == nil {
 				s.clientExit(rs)
@@ -432,6 +497,9 @@ func (s *Sim) clientMain(rs *rpcState, g int, ops []Op) {
 		}
 	}
 	s.clientRecheck(rs, g)
+	if g == 0 {
+		s.optionAliasProbe(rs, st)
+	}
 	if g == 0 && rs.outMD != nil {
 		s.instant(r.ID, 'c', g, "outmd-at-end", func(e *Event) { e.MD = mdCopy(rs.outMD) })
 	}
@@ -1264,13 +1332,59 @@ func (s *Sim) spawnLate(rs *rpcState, stream grpc.ServerStream, ops []Op) {
 	}()
 }
 
+// spawnLateUnary: a goroutine the unary handler left behind sets response
+// metadata after the handler has returned - too late, and it must be told so.
+func (s *Sim) spawnLateUnary(rs *rpcState, ctx context.Context, ops []Op) {
+	s.mu.Lock()
+	s.liveActors++
+	s.mu.Unlock()
+	site := fmt.Sprintf("actor:late%d", rs.r.ID)
+	simrt.GoSpawn(site)
+	go func() {
+		simrt.GoStart(site)
+		defer simrt.GoEnd()
+		simrt.SetName(fmt.Sprintf("late%d", rs.r.ID))
+		defer func() {
+			s.mu.Lock()
+			s.liveActors--
+			s.mu.Unlock()
+		}()
+		for _, op := range ops {
+			s.sleep(time.Duration(op.D))
+			simrt.Yield(fmt.Sprintf("late%d:op", rs.r.ID))
+			s.probe("late-server-operation")
+			name, f := "late-sethdr", func() error { return grpc.SetHeader(ctx, metadata.Pairs("late", "h")) }
+			switch op.N % 3 {
+			case 1:
+				name, f = "late-sendhdr", func() error { return grpc.SendHeader(ctx, metadata.Pairs("late", "s")) }
+			case 2:
+				name, f = "late-settlr", func() error { return grpc.SetTrailer(ctx, metadata.Pairs("late", "t")) }
+			}
+			ev := s.begin(rs.r.ID, 'h', 9, name)
+			err := guard(ev, f)
+			s.end(ev, err)
+		}
+	}()
+}
+
 // unaryHandler runs the handler script of a unary RPC. It mirrors generated
 // code: decode, then the interceptor (if any) around the rest.
 func (s *Sim) unaryHandler(rs *rpcState, ctx context.Context, dec func(any) error, interceptor grpc.UnaryServerInterceptor) (resp any, err error) {
 	r := rs.r
 	s.handlerEnter(rs, ctx, "unary")
 	var respMsg proto.Message
-	defer func() { s.handlerExit(rs, err, respMsg) }()
+	var lateOps []Op
+	defer func() {
+		s.handlerExit(rs, err, respMsg)
+		if len(lateOps) > 0 {
+			s.spawnLateUnary(rs, ctx, lateOps)
+		}
+	}()
+	for _, op := range r.Handler {
+		if op.K == "late" {
+			lateOps = append(lateOps, op)
+		}
+	}
 	name := fmt.Sprintf("h%d", r.ID)
 	ops := r.Handler
 	// operations before "decode"
